@@ -11,7 +11,9 @@ package main
 // Files: c20.go (scenario types, init.go mirror, runner, monitors, driver),
 // c20_world.go (abstract store <-> simstore objects, TLS material registry,
 // certificate generator parameter), c20_gen.go (scenario generator),
-// c20_dump.go (tables regenerated from the source tree).
+// c20_dump.go (tables regenerated from the source tree), c20_peer.go (other
+// writers on every object, error classes, their generator), c20_real.go (the
+// real cluster/ directories).
 
 import (
 	"context"
@@ -19,7 +21,6 @@ import (
 	"encoding/json"
 	"encoding/pem"
 	"fmt"
-	"os"
 	"reflect"
 	"sort"
 	"strings"
@@ -607,9 +608,6 @@ func (w *c20World) runOnce(s *c20Scn, idx int, r c20Run, mons *[]Mon) c20Result 
 		o.Log = append(o.Log, c20LogLine(ci))
 		if ci.Changed {
 			o.Writes++
-			if os.Getenv("C20_DEBUG") != "" {
-				fmt.Fprintln(os.Stderr, "changed:", idx, ci.Index, c20LogLine(ci))
-			}
 		}
 	}
 	res.calls = len(o.Log)
@@ -833,13 +831,6 @@ func (w *c20World) watch(s *c20Scn, idx int, mons *[]Mon) *c20PkgView {
 		if !ci.IsWrite() {
 			return
 		}
-		if os.Getenv("C20_DEBUG") != "" && idx >= 0 {
-			for _, u := range st.All() {
-				if u.GroupVersionKind().GroupKind().String() == ci.GK && u.GetName() == ci.Name {
-					fmt.Fprintln(os.Stderr, "BEFORE", idx, ci.Index, mustJSON(u.Object))
-				}
-			}
-		}
 		switch ci.GK {
 		case "Secret":
 			if u := st.Peek(c20GKSecret, ci.NS, ci.Name); u != nil {
@@ -869,13 +860,6 @@ func (w *c20World) watch(s *c20Scn, idx int, mons *[]Mon) *c20PkgView {
 	st.After = func(ci CallInfo) {
 		if !ci.IsWrite() || !ci.Applied {
 			return
-		}
-		if os.Getenv("C20_DEBUG") != "" && idx >= 0 {
-			for _, u := range st.All() {
-				if u.GroupVersionKind().GroupKind().String() == ci.GK && u.GetName() == ci.Name {
-					fmt.Fprintln(os.Stderr, "AFTER ", idx, ci.Index, ci.Changed, mustJSON(u.Object))
-				}
-			}
 		}
 		switch ci.GK {
 		case "Secret":
@@ -1137,9 +1121,6 @@ func (w *c20World) postMonitors(s *c20Scn, before c20Store, res c20Result, mons 
 	pb, pa := res.view.stores(before, after)
 	otherWriter := len(res.touched) > 0
 	bi, ai := c20PkgIndex(pb), c20PkgIndex(pa)
-	if os.Getenv("C20_DEBUG") != "" {
-		fmt.Fprintln(os.Stderr, "PKGVIEW", mustJSON(res.view.listed), mustJSON(res.view.ours), "PB", mustJSON(pb.Pkgs), "PA", mustJSON(pa.Pkgs))
-	}
 	installs := 0
 	for _, st := range steps {
 		if st.T == "install" {
